@@ -10,6 +10,7 @@ import (
 
 	"verifharness/common"
 	_ "verifharness/engines/store"
+	_ "verifharness/engines/table"
 )
 
 func main() {
